@@ -97,11 +97,12 @@ def run_check(pid, tier, seed):
     for f, n in seen_known.values():
         known_lines.append('KNOWN-FINDING: property={} {} [{}; {}; {}]'.format(pid, f.get('what', ''), f.get('function'), f.get('clause'), f.get('input_class', 'any')))
     rdir = os.path.join(ROOT, 'evidence', 'replays') if not os.environ.get('VERIF_NOEVIDENCE') else os.path.join('/tmp', 'gv_replays_%d' % os.getpid())
-    os.makedirs(rdir, exist_ok=True)
-    # stale replays of this property are removed so that a reader never confuses runs
-    for fn_ in os.listdir(rdir):
-        if fn_.startswith(pid + '-'):
-            os.unlink(os.path.join(rdir, fn_))
+    if new or not os.environ.get('VERIF_NOEVIDENCE'):
+        os.makedirs(rdir, exist_ok=True)           # scratch runs (VERIF_NOEVIDENCE) leave nothing behind unless they have something to show
+        # stale replays of this property are removed so that a reader never confuses runs
+        for fn_ in os.listdir(rdir):
+            if fn_.startswith(pid + '-'):
+                os.unlink(os.path.join(rdir, fn_))
     vlines = []
     for k, ((fn, clause), recs) in enumerate(new):
         path = os.path.join(rdir, '{}-{}.json'.format(pid, k))
